@@ -66,8 +66,7 @@ func varBytes(b []byte) []byte {
 	switch {
 	case n < 0xfd:
 		out = []byte{byte(n)}
-	case n < 0xffff: // sic: io.PutVarUint encodes exactly 0xffff in the 5-byte form
-
+	case n <= 0xffff: // the protocol's minimal form (io.PutVarUint wrote 0xffff in the 5-byte form before fix ced8071)
 		out = []byte{0xfd, 0, 0}
 		binary.LittleEndian.PutUint16(out[1:], uint16(n))
 	default:
